@@ -138,6 +138,16 @@ SUMMARY = {
     "C18-7": ("`splinetable_write_key` returns 1 when the C++ `write_key` returns false", "the same key written twice (false = overwritten, a success)", "missed at first; CW-3b (false after an effect is not a failure) added"),
     "C19-7": ("`estimateMemory` steps to HDU i+2 instead of looking `KNOTS<i>` up by name", "file with the extensions in another sequence (foreign / re-packed), convolution declared", "missed at first; SM-8 (extensions located as the reader locates them) added"),
     "C20-7": ("read guard relaxed to `ndim!=0` (a table holding only keys may be read into)", "`write_key` on an empty table, then `read_fits`: the key store is overwritten and leaked", "caught (TS-3b)"),
+    "C01-8": ("per-call VLA scratch of `ndsplineeval` replaced by a grow-only `static std::vector`", "two or more threads evaluating const tables at once: shared basis buffer, values mix two points", "missed at first; RE-1 (no state kept between calls) added"),
+    "C02-8": ("gradient lane fill rewritten with a fixed trip count `MAXDIM-1`: lane 7 never receives the value basis", "gradient of a 7-dimensional table (last component)", "caught (CL-4 lane wiring)"),
+    "C03-8": ("`case 7` of the constant-order-3 block selects the order-2 vector core `<Float,7,2>`", "evaluator gradient of a 7-D table of order 3 everywhere", "caught (DP-1)"),
+    "C04-8": ("margin tests of `searchcenters` compare with the stored extents instead of `knots[order]` / `knots[naxes]`", "a table whose extents differ from the fully supported knot range (after `convolve`, or an edited EXTENTS HDU)", "caught (SC-2, SC-5)"),
+    "C05-8": ("row of recursive derivatives filled for `i < maxdegree` instead of `i <= order[n]`", "mixed orders with maxorder >= 2*order[n]+1, derivative order >= 2, centre near the top: reads past the knots", "missed at first; CL-10 (row range of the recursive reference) added"),
+    "C06-8": ("reader's knot-order test made non-strict (`<=`): repeated knots refused", "any table with a repeated knot (clamped ends, doubled interior knot) written and read back", "missed at first under C06 (C07's VG-2 alarmed with a misleading text); VG-2 accepts the stricter guard, VG-2x (reader not stricter than well-formedness) added under C06"),
+    "C07-8": ("gradient guard `ndim+1 > MAXDIM` relaxed to `ndim > MAXDIM`", "a valid 8-dimensional table that loads, then a gradient: 9 lanes into 8", "missed at first under C07 (caught under C03/C05: KB-3); C07 now runs KB-3"),
+    "C08-8": ("the two writers' local guards merged into one shared guard that closes (the disk writer's had deleted)", "one transient write failure inside a long knot vector: the zero-padded file left behind loads as another table", "caught (ED-7; the rule first called the shared guard 'no guard', guard detection widened)"),
+    "C09-8": ("`cholmod_l_drop(DBL_EPSILON, ...)` after the product in `slicemultiply` (same edit as C17-6, fit path)", "weights below ~1e-12 or data below ~1e-16 in absolute size", "missed at first under C09 (GE-5 ran under C17 only); GW-8 (no absolute threshold on the fit path) added"),
+    "C10-8": ("released rows appended to the free set with one `memcpy` before the row-add loop", "two or more coupled rows released together through the incremental update path (one thread, data-free region)", "missed at first; SP-5 (free set grows by the row being added) added"),
     "C20-2": ("`extents[0] = nullptr` removed from the reader", "allocation failure at the 7th request with a non-zero-filling allocator", "caught"),
 }
 try:
